@@ -249,10 +249,92 @@ def grouping_case(ctx: Ctx, stream: str, i: int) -> None:
     ctx.count('grouping:' + kind)
 
 
+def half_case(ctx: Ctx, stream: str, i: int) -> None:
+    """Operands that share exactly ONE of the two structures: `a : s → s` of every kind (plain, sum, composition,
+    identity, scalar, lazy inverse, …) against `c : s → t` and `c.T : t → s` with `t ≠ s`.  Sums and differences in
+    either order must be refused (one of the two structure comparisons alone decides), `a @ c` must be refused,
+    `c @ a` and `c.T @ c`-style products are legal and must denote the matrix product."""
+    from furax._base.core import AdditionOperator, CompositionOperator
+    rng = ctx.rng(stream, i)
+    s = gen.random_structure(rng)
+    pool = operand_pool(rng, s)
+    c = None
+    for _ in range(12):
+        cand = rng.choice(gen.CHANGERS)(rng, s)
+        if cand is not None and not gen.same_structure(cand.out_structure(), s):
+            c = cand
+            break
+    if c is None:
+        ctx.count('half:no-changer')
+        return
+    st_t, ct = safe(lambda: c.T)
+    rights = [('c', c)] + ([('cT', ct)] if st_t == 'ok' else [])
+    kinds = {}
+    for a in pool:
+        kinds.setdefault(type(a).__name__, a)
+    lefts = list(kinds.values())
+    # composite left operands of both container kinds, whatever the pool drew
+    lefts.append(AdditionOperator([pool[0], pool[1]]))
+    lefts.append(CompositionOperator([pool[1], pool[0]]))
+    for a in lefts:
+        for rname, r in rights:
+            for op in ('+', '-', 'r+', 'r-', '@', 'r@'):
+                x, y = (a, r) if not op.startswith('r') else (r, a)
+                sym = op[-1]
+                enc = Encoder()
+                ex, ey = enc.op(x), enc.op(y)
+                enc.freeze()
+                req = [{'@': 'matmul', '+': 'add', '-': 'sub'}[sym], ex, ey]
+                f = {'@': lambda: x @ y, '+': lambda: x + y, '-': lambda: x - y}[sym]
+                status, res = safe(f)
+                if sym == '@':
+                    compatible = gen.same_structure(x.in_structure(), y.out_structure())
+                else:
+                    compatible = gen.same_structure(x.in_structure(), y.in_structure()) and \
+                        gen.same_structure(x.out_structure(), y.out_structure())
+                desc = {'op': sym, 'left': type(x).__name__, 'right': type(y).__name__, 'which': rname,
+                        'expr': sx(req)[:2000]}
+                if not compatible:
+                    if status == 'ok':
+                        ctx.fail(stream, i, f'incompatible-accepted:{type(x).__name__}{sym}{type(y).__name__}',
+                                 f'{type(x).__name__} {sym} {type(y).__name__} sharing only one structure yielded a '
+                                 f'{type(res).__name__} instead of raising', desc)
+                    elif status != 'ValueError':
+                        ctx.fail(stream, i, f'incompatible-raises-{status}', f'expected ValueError, got {status}', desc)
+                elif status != 'ok':
+                    ctx.fail(stream, i, f'arith-raises-{status}:{sym}', f'{sym} on compatible operands raised {status}: '
+                             f'{res}', desc)
+                else:
+                    st, got = safe(gen.dense, res)
+                    expect = gen.dense(x) @ gen.dense(y)
+                    if st != 'ok' or not gen.close(got, expect):
+                        ctx.fail(stream, i, f'arith-changes-map:{sym}:{type(x).__name__}:{type(y).__name__}',
+                                 'dense matrix of the product is not the product of the dense matrices', desc)
+                reply = ctx.model.ask(req)
+                if reply[0] == 'unsupported':
+                    ctx.skipped += 1
+                elif status != 'ok':
+                    if not (reply[0] == 'error' and reply[1] == status):
+                        ctx.disagree(stream, i, f'{sym}: implementation raised {status}, model replied '
+                                     f'{sx(reply)[:150]}', desc)
+                elif reply[0] != 'ok':
+                    ctx.disagree(stream, i, f'{sym}: model replied {sx(reply)[:150]}, implementation returned '
+                                 f'{type(res).__name__}', desc)
+                else:
+                    d = first_diff(reply[1], enc.op(res))
+                    if d is not None:
+                        ctx.disagree(stream, i, f'{sym}: result differs at {d[0]}: model {d[1]!r:.150} impl {d[2]!r:.150}', desc)
+                ctx.count('half:' + ('refused' if status != 'ok' else 'built'))
+                ctx.case(sx(req), True, sample=None)
+
+
 def run(ctx: Ctx) -> None:
     for i in range(40 if ctx.tier == 'quick' else 800):
         if ctx.want('grouping', i):
             grouping_case(ctx, 'grouping', i)
+    for i in range(10 if ctx.tier == 'quick' else 200):
+        if ctx.want('half', i):
+            half_case(ctx, 'half', i)
     n = 60 if ctx.tier == 'quick' else 1200
     steps = 7 if ctx.tier == 'quick' else 10
     for i in range(n):
